@@ -239,7 +239,7 @@ def bracketfile(m, n, disco, wo, wk, wc, sp, er, firstid, wsel, **kw):
     stubs.install()
     s1 = _first(m, n, kw, wsel, WORDS_BR)
     if not disco and spec_gapdeg(s1) > 0:
-        return ""       # not representable (excluded by the precondition)
+        return "~"       # not representable (excluded by the precondition)
     s2 = S2 if disco else S2C
     sents = [(None, s1), (None, s2)]
     if er:
